@@ -57,20 +57,33 @@ THEOREMS = [
     "BeyondVerif.C09W.stale_scenario_now_consistent",
     "BeyondVerif.C09W.alias_mutation_not_refreshed",
 ]
-LEVEL_TEXT = ("Lean theorems over R about a model of Interp (_prev_idx slicing search, the start/stop window arithmetic translated from interp.py on every run, "
-              "Python slicing, the Lagrange and linear formulas) and of Ephem.interpolate: for every strictly increasing table, every order >= 2 (even and odd), "
-              "every length >= order and every abscissa of [first, last] the call returns the Lagrange interpolant on `order` consecutive rows containing the "
-              "bracketing interval (both end intervals included); that value is Mathlib's Lagrange.interpolate, hence exact at nodes and exact on polynomials of "
-              "degree < order; linear interpolation is exact at nodes and on piecewise-linear data; abscissae outside and tables shorter than the order give an "
-              "error, never a value; the result carries the form/frame of the ephemeris and the requested date, and after any history of interpolations and "
-              "frame/form changes its coordinates are interpolated from the current points. Model tied to the real classes by an exact / "
-              "1e-10 differential correspondence (prev_idx, window recovered from one-hot ordinates, whole calls, Ephem sequences).")
-LEVEL_NOTE = ("R -> double gap covered only by the correspondence; 'within centimetres on a smooth orbit' is checked by the oracle only; Lean kernel + propext/Classical.choice/Quot.sound; py2lean translator and harness trusted")
-TECHNIQUE = ("Lean 4 proof (induction over the binary search, omega on the window arithmetic regenerated from the Python AST, Mathlib Lagrange.interpolate / "
-             "eq_interpolate) + exact differential correspondence of the executable model with Interp / Ephem")
+LEVEL_TEXT = ("Lean theorems over R about a model of Interp and of Ephem around it. Translated from the Python AST on every run: the start/stop window arithmetic, "
+              "the guard `len(ys) != order`, the Lagrange formula itself (the numpy chain tile/reshape/diag/repeat/~identity/mask/-, / /prod(axis=1)/@, by a dedicated "
+              "extractor that refuses every other shape; `lagrangeFormula_eq` proves the translated term equal to the textbook sum_j y_j prod_{m != j} (x - x_m)/(x_j - x_m)), "
+              "the slice bounds and formula of _linear, the range test of __call__, DEFAULT_ORDER, and the statements of the small Ephem / DatedInterp methods (pinned). "
+              "Hand-written: the _prev_idx loop, Python slicing, the meaning of each numpy operation, the Ephem state machine. "
+              "Theorems: for every strictly increasing table, every order >= 2 (even and odd), every length >= order and every abscissa of [first, last] the call returns the "
+              "Lagrange interpolant on `order` consecutive rows containing the bracketing interval (both end intervals included); that value is Mathlib's Lagrange.interpolate, "
+              "hence exact at nodes and on polynomials of degree < order; the classical remainder bound |p(x) - f(x)| <= max|f^(k)| H^k / (4k) for that window (steps <= H, "
+              "uniform or not, ends of the table included) with the instance 'circular orbit up to GEO, order 8, step <= period/100: every coordinate within 1 mm'; linear "
+              "interpolation is exact at nodes — the last one included (_prev_idx at a node is the node before) — and on piecewise-linear data; abscissae outside and tables "
+              "shorter than the order give an error, never a value; Ephem as a state machine over (points with identities, method, order, interpolator's array): replies of "
+              "interpolate/propagate are new objects, ephem[i] is the recorded one, and for every history of interpolations, propagations, index reads, frame/form changes, "
+              "order/method settings and in-place modifications by the caller of objects it received, each reply is the interpolation of the current points with the current "
+              "method and order, labelled with the current first point's frame and form and the requested date. Model tied to the real classes by an exact / 1e-10 "
+              "differential correspondence (prev_idx, window recovered from one-hot ordinates, whole calls, Ephem operation histories incl. object identity).")
+LEVEL_NOTE = ("R -> double gap covered only by the correspondence; the centimetre clause is proved for circular orbits (derivative bound omega^k r), for eccentric Keplerian "
+              "motion the general bound awaits a bound of the 8th derivative — oracle there; Lean kernel + propext/Classical.choice/Quot.sound; extractors and harness trusted")
+TECHNIQUE = ("Lean 4 proof (induction over the binary search, omega on the window arithmetic regenerated from the Python AST, list algebra turning the translated numpy chain into "
+             "the textbook formula, Mathlib Lagrange.interpolate / eq_interpolate, iterated Rolle for the remainder, induction over operation histories) + exact differential "
+             "correspondence of the executable model with Interp / Ephem, sequences on one object included")
 TRUSTED = [
-    "harness/py2lean.py + harness/props/C09.py:window_source: translate the start/stop statements of Interp._lagrange (and Ephem.DEFAULT_ORDER) into Generated/InterpWin{F,R}.lean on every run",
-    "lean/templates/Interp.tpl (hand-written: _prev_idx, Python slice semantics, Lagrange / linear formulas, __call__ / __init__ checks, Ephem state with cached ordinates), tied by the correspondence run",
+    "harness/py2lean.py + harness/props/C09.py:window_source / formula_source (class NpTr: the numpy idiom of _lagrange, typed, A-normal form, refuses unknown shapes) / ephem_source: "
+    "translate interp.py and ephem.py into Generated/InterpWin{F,R}.lean, Generated/InterpLag{F,R}.lean, Generated/EphemSrc.lean on every run",
+    "lean/templates/NpArr.tpl (hand-written meaning of np.tile, reshape, diag, repeat(axis=0), identity(dtype=bool), ~, boolean-mask selection, broadcast - and /, prod(axis), @ on lists), "
+    "tied to numpy by the correspondence (whole calls run the translated formula in the driver)",
+    "lean/templates/Interp.tpl (hand-written: _prev_idx loop, Python slice semantics, __init__ checks and the method dispatch — extraction refuses when the text of these functions changes — "
+    "and the Ephem state machine Eph / EphH: sorted points with identities, method, order, the interpolator's own array, refreshed by the frame/form setters), tied by the correspondence run",
     "numpy double arithmetic vs R: linear values compared bit for bit, Lagrange values to 1e-10 of sum_j |l_j y_j| (BLAS summation order)",
 ]
 ASSUMPTIONS = [
@@ -78,21 +91,30 @@ ASSUMPTIONS = [
     "abscissae strictly increasing (Interp.__init__ enforces it; Ephem sorts its points and two points with equal dates make every interpolation raise ValueError)",
     "order >= 1 in the correspondence (order 0 or negative is not modelled); the property quantifies over orders 2..12, the theorems over every order >= 2",
     "dates are compared through Date._mjd (a double, 0.6 us resolution at today's MJD): query dates closer than that to a table end are not distinguished from it",
+    "history theorems quantify over callers that modify in place only objects the ephemeris created for them (replies of interpolate / propagate / iter) or the whole ephemeris through "
+    "Ephem.frame / Ephem.form; `ephem[i]` and `for p in ephem` hand out the recorded points themselves (by design: the setters use it) and converting one of them in place is not seen by an "
+    "interpolator that exists already (model: EphH.mutate, witness C09W.alias_mutation_not_refreshed, replayed on the real class by the `W` operations of the correspondence)",
+    "remainder bound: the function interpolated is k times differentiable on R with |f^(k)| <= M on the table's range (derivative chain F 0 = f, F (i+1) = (F i)')",
 ]
 NOT_COVERED = [
-    "'for a smooth orbit sampled at a step well below its period the interpolated position is within centimetres': an approximation bound for a class of functions; oracle only "
+    "'within centimetres for a smooth orbit': proved for circular orbits only (smooth_orbit_within_cm_partial: order 8, step <= period/100, radius <= 43 000 km: 1 mm per coordinate, over R); "
+    "for eccentric Keplerian motion (no explicit bound of the 8th time derivative formalised) and for the rounding in doubles: oracle only "
     "(Keplerian orbits e <= 0.05, step = period/100..200, orders 7..10, uniform and jittered: <= 5 cm at every position incl. first/last interval)",
 ]
 OPEN = [
-    "the Lagrange formula itself (tile/repeat/mask/prod/@ in numpy) is hand-modelled in the template and tied by correspondence only, not translated from the AST",
+    "the _prev_idx while-loop, Python slicing and Interp.__init__ are hand-modelled (tied by exact correspondence; extraction refuses when their source text changes) — not translated",
+    "a bound of the derivatives of eccentric Keplerian motion, to instantiate interp_lagrange_error_bound beyond circular orbits",
 ]
 RULE = ("correspondence: random tables (length 1..40, order none/1..12, uniform / jittered / MJD abscissae, 1-D and 2-D ordinates, non-increasing and length-mismatched variants), "
         "abscissae at nodes, inside every kind of interval (first, last, interior, one ulp from a node), one ulp outside, far outside, NaN: Interp._prev_idx exact; "
-        "window recovered from the real code by interpolating one-hot ordinates, exact; whole calls (error kind exact, linear bit-exact, Lagrange rtol 1e-10); "
-        "Ephem objects (shuffled construction, default method/order, heterogeneous labels, interpolate / set form or frame / set order or method / interpolate sequences) vs the Lean model; "
+        "window recovered from the real code by interpolating one-hot ordinates, exact; whole calls (error kind exact, linear bit-exact, Lagrange rtol 1e-10 — the driver runs the translated numpy chain); "
+        "Ephem objects (shuffled construction, default method/order, heterogeneous labels) under random operation histories of length 2..6 on ONE object: interpolate / propagate / iter(dates=) / "
+        "iter(start, stop, step) / ephem[i] (negative and out-of-range indices) / in-place modification (values, form, frame) of an object received earlier — new or recorded — / order and method setters / "
+        "frame and form setters, query dates expressed in UTC, TAI, TT, GPS: reply kind, identity (new object vs recorded point), form, frame, date exact, coordinates 1e-10; "
         "non-trivial = the call returns a value; distinct = distinct request line. "
         "oracle: node exactness, polynomial reproduction (1e-7), piecewise-linear reproduction, refusal outside / too short, labels, stale-cache scenario, "
         "query dates in other time scales (TAI/TT/GPS/UTC exact, UT1/TDB to 2 us) with real EOP tables, order/method setters on live ephemerides and interpolators vs fresh ones, "
+        "every API that computes a point (interpolate, propagate, iter(dates), iter(step), iter(), ephem()) hands out a new object and modifying it in place changes neither the table nor later answers, "
         "cm accuracy on Keplerian orbits, all on the real API")
 
 INTERP_PY = os.path.join(core.REPO, "beyond", "utils", "interp.py")
